@@ -145,7 +145,7 @@ func c20Gen(r *rand.Rand, tier string) []any {
 	for i := 0; i < tables; i++ {
 		var routes []rRoute
 		if r.Intn(2) == 0 {
-			routes = []rRoute{{"GET", rGenPattern(r, rGenOpts{escaped: true})}}
+			routes = []rRoute{{Method: "GET", Path: rGenPattern(r, rGenOpts{escaped: true})}}
 			if r.Intn(3) == 0 {
 				routes[0].Method = rMethods[r.Intn(len(rMethods)-1)]
 			}
